@@ -13,6 +13,9 @@ for _a, _b in FULL_COLLISIONS:
 assert murmur3_32(b"k118215") == 0x0d4a73d6 and murmur3_32(b"k5d39") == 0x00f65ad1
 # formatted lengths around the buffer sizes 1024 / 2048 / 4096 / 8192 of DYNAMIC_VSPRINTF (putstrf)
 VS_LENGTHS = list(range(1000, 1026)) + list(range(2040, 2051)) + list(range(4090, 4101)) + [5000, 10000]
+# every length up to a little beyond twice the first buffer size: a private fast path with a buffer
+# of ANY size below that (200, 256, 512, ... bytes) has its boundary in here
+VS_SWEEP = list(range(0, 2101)) + list(range(4090, 4101)) + [5000, 8191, 8192, 8193, 10000]
 
 
 def vs_value(n, salt=0):
@@ -312,13 +315,13 @@ class TheCheck(Check):
         ops = []
         for r in (3, 0):
             ops.append("new %d" % r)
-            for i, n in enumerate(VS_LENGTHS):
+            for i, n in enumerate(VS_SWEEP if r == 3 else VS_LENGTHS):
                 k = b"p%d" % (i % 3)
                 ops += [kop("putstrf", k, hexs(vs_value(n, i))), kop("getstr", k), kop("get", k, "0")]
                 if i % 3 == 2:
                     ops += [kop("rm", b"p0"), kop("rm", b"p1")]
             ops += ["walk 0", "clear"]
-        sts.append(Stream("putstrf-lengths", ops, history=True, note="formatted lengths 1000..1025, 2040..2050, 4090..4100, 5000, 10000"))
+        sts.append(Stream("putstrf-lengths", ops, history=True, note="every formatted length 0..2100, 4090..4100, 5000, 8191..8193, 10000"))
 
         # 4. random histories
         nh, nops = (60, 400) if self.tier == "quick" else (400, 2000)
